@@ -22,9 +22,19 @@
      3. replacement_needs_bump    — proved (C15_replacement_needs_bump, C15_list_replacement_needs_bump);
      4. limits_hold p             — not proved; FALSE at all times for the queue limits of the code as it is
                                      (signature removetx-requeue-exceeds-queue-limits); checked by the direct oracle;
-     5. reorg_reinjects           — not proved here (checked on the implementation by the direct oracle). *)
+     5. reorg_reinjects           — the reinjection set is proved exact (C15_reorg_reinject_set, C15_reorg_nothing_invented:
+                                     dropped branch minus new branch down to a common ancestor; [] for a plain advance,
+                                     for a number difference > 64 and for unknown blocks); every candidate that is valid
+                                     against the new head state, has no same-(sender, nonce) competitor and no hash twin
+                                     is pooled at the end of addTxsLocked(reinject) unless the pool fills up
+                                     (C15_reorg_reinjects_partial).  NOT proved: that it is still pooled after the
+                                     promoteExecutables / demoteUnexecutables / promoteExecutables that follow inside
+                                     reset — there a transaction can leave only through Forward (nonce below the chain
+                                     nonce), Filter (cost > balance or gas > limit), a same-nonce replacement, the
+                                     AccountQueue cap, the GlobalSlots loops or the GlobalQueue truncation; and the
+                                     converse "nothing but reinjected transactions enters the pool during reset". *)
 From Coq Require Import List ZArith.
-From AQ Require Import Pool.PoolModel Pool.PoolSpec Pool.PoolProofs.
+From AQ Require Import Pool.PoolModel Pool.PoolSpec Pool.PoolProofs Pool.PoolReorg.
 Import ListNotations.
 Local Open Scope Z_scope.
 
@@ -127,6 +137,68 @@ Example C15_pending_limit_example :
             map (fun kv => (fst kv, map tnonce (items (snd kv)))) (pending p) = [(0, [0; 1]); (1, [0; 1])] /\
             pn_get p 0 = 2 /\ pn_okb p [0; 1] = true.
 Proof. exact slots_history_runs. Qed.
+
+(* 5. reorg_reinjects.  (a) What reset(old, new) reinjects: [] if new is a child of old, if the block numbers differ
+      by more than 64, or if a head is unknown to the chain; otherwise exactly the transactions of the dropped branch
+      that are not in the new branch, both followed down to a common ancestor (reorg_spec).  (Ok None = unrooted chain:
+      reset returns without touching the pool.) *)
+Theorem C15_reorg_reinject_set : forall (bs : list block) (old new : block) (ri : list tx),
+  reorg_txs bs (Some old) new = Ok (Some ri) ->
+  (bhash old = bparent new /\ ri = []) \/
+  (bhash old <> bparent new /\ 64 < Z.abs (bnumber old - bnumber new) /\ ri = []) \/
+  (bhash old <> bparent new /\ Z.abs (bnumber old - bnumber new) <= 64 /\
+   (get_block bs (bhash old) (bnumber old) = None \/ get_block bs (bhash new) (bnumber new) = None) /\ ri = []) \/
+  (bhash old <> bparent new /\ Z.abs (bnumber old - bnumber new) <= 64 /\ reorg_spec bs old new ri).
+Proof. exact reorg_txs_spec. Qed.
+Print Assumptions C15_reorg_reinject_set.
+
+(* nothing is invented and nothing of the dropped branch is forgotten: membership in discarded \ included *)
+Theorem C15_reorg_nothing_invented : forall (a b : list tx) (t : tx),
+  In t (tx_difference a b) <-> In t a /\ (forall u, In u b -> thash u <> thash t).
+Proof. exact tx_difference_in. Qed.
+Print Assumptions C15_reorg_nothing_invented.
+
+(* (b) PARTIAL.  Full statement wanted: every reinjected transaction that is valid against the new head state is in
+      pending or queue when reset returns, unless a same-nonce competitor or one of the limits (pool size, AccountQueue,
+      GlobalSlots, GlobalQueue) evicts it.  Proved: at the end of the submission loop of addTxsLocked(reinject, false),
+      i.e. before the promoteExecutables / demoteUnexecutables / promoteExecutables that follow inside reset.
+      q is the pool with the new head state installed; the pool does not fill up (|all| + |reinject| <= GlobalSlots +
+      GlobalQueue); t is valid (validateTx against the new state), is the only reinjected or pooled transaction with
+      its (sender, nonce) and has no hash twin among the reinjected. *)
+Theorem C15_reorg_reinjects_partial : forall (ri : list tx) (o : oracle) (q : pool) (e : list (option err)) (d : list Z) (t : tx),
+  unique_nonce q /\ all_exact q ->
+  (forall a l, assoc a (queue q) = Some l -> strict l = false) ->
+  Z.of_nat (length (all q)) + Z.of_nat (length ri) <= (c_gslots (conf q) + c_gqueue (conf q)) mod two64 ->
+  (forall u, In u ri -> tfrom u = tfrom t -> tnonce u = tnonce t -> u = t) ->
+  (forall u, In u ri -> thash u = thash t -> u = t) ->
+  validate_tx q t false = None ->
+  In t ri -> assoc (thash t) (all q) = None ->
+  (forall u, listed q u -> tfrom u = tfrom t -> tnonce u <> tnonce t) ->
+  listed (snd (fold_left (atl_step o false) ri (e, d, q))) t.
+Proof.
+  intros ri o q e d t HK HS Hroom Hc Hh Hv Hin Hn Hno.
+  apply (reinject_phase ri o q e d t); auto. split; [apply J_exact; exact HK|exact HS].
+Qed.
+Print Assumptions C15_reorg_reinjects_partial.
+
+(* (c) PARTIAL, converse for the same phase: nothing but reinjected transactions enters the pool during the submission
+      loop of addTxsLocked(reinject, false) (pool not filling up).  Full statement wanted: the same for the whole reset. *)
+Theorem C15_reorg_only_reinjected_enter_partial : forall (ri : list tx) (o : oracle) (q : pool) (e : list (option err)) (d : list Z),
+  unique_nonce q /\ all_exact q ->
+  (forall a l, assoc a (queue q) = Some l -> strict l = false) ->
+  Z.of_nat (length (all q)) + Z.of_nat (length ri) <= (c_gslots (conf q) + c_gqueue (conf q)) mod two64 ->
+  forall v, listed (snd (fold_left (atl_step o false) ri (e, d, q))) v -> listed q v \/ In v ri.
+Proof.
+  intros ri o q e d HK HS Hroom. apply (reinject_phase_sub ri o q e d); auto. split; [apply J_exact; exact HK|exact HS].
+Qed.
+Print Assumptions C15_reorg_only_reinjected_enter_partial.
+
+Example C15_reorg_example :
+  reorg_txs ex_bs (Some (mkBlock 11 10 1 [mk 1 0 0 50])) (mkBlock 12 10 1 []) = Ok (Some [mk 1 0 0 50]) /\
+  exists p, reset_heads o0 (new_pool cfg_tiny 1 [(0, (1, 100000000))] 1000000) ex_bs (Some (mkBlock 11 10 1 [mk 1 0 0 50])) (mkBlock 12 10 1 [])
+              [(0, (0, 100000000))] 1000000 = Ok p /\
+            map (fun kv => (fst kv, map thash (items (snd kv)))) (pending p) = [(0, [1])].
+Proof. exact reorg_example. Qed.
 
 (* 1 refuted: a reachable state whose pending list has a gap (nonces 0,2,3 with state nonce 0) *)
 Theorem C15_pending_executable_refuted :
